@@ -217,8 +217,43 @@ func loadScenarios(id string) []*Scenario {
 	return out
 }
 
+// thoroughExtras: profiles that only the thorough tier runs (long histories, multi-MiB contents).
+func thoroughExtras(id string) []*Profile {
+	switch id {
+	case "C01":
+		p := baseProfile("bigstore")
+		p.Paths = []string{"big.bin", "a"}
+		p.Classes = []string{"big_random", "big_compressible", "nul", "header_like"}
+		p.MaxSize = 6 << 20
+		p.Steps = 10
+		withW(p, "write", 30, "add", 30, "commit", 10, "restore", 6, "reset", 2, "branch", 0, "branchd", 0, "branchr", 0, "switch", 0, "switchc", 0, "updateref", 0, "config", 0, "touch", 0, "mkdir", 0)
+		p.Obs = ObsSpec{Hash: true, CatFile: true}
+		return []*Profile{p}
+	case "C14", "C11", "C08":
+		p := baseProfile("longhistory")
+		p.Paths = []string{"a", "b"}
+		p.Steps = 220
+		withW(p, "commit", 30, "write", 30, "add", 30, "reset", 5, "switch", 3, "switchc", 2, "branch", 1, "updateref", 1,
+			"rm", 0, "restore", 0, "restores", 0, "remove", 0, "rmdir", 0, "touch", 0, "mkdir", 0, "branchd", 1, "branchr", 1, "config", 0)
+		p.Obs = obsFor(id)
+		return []*Profile{p}
+	}
+	return nil
+}
+
 func randomJobs(id string, nTraces int, perChunk int, stepsScale float64) []Job {
 	profs := profilesFor(id)
+	if stepsScale > 1.0 {
+		// thorough tier: every 8th trace comes from an extra profile
+		if ex := thoroughExtras(id); len(ex) > 0 {
+			mixed := []*Profile{}
+			for i := 0; i < 7; i++ {
+				mixed = append(mixed, profs[i%len(profs)])
+			}
+			mixed = append(mixed, ex[0])
+			profs = mixed
+		}
+	}
 	var jobs []Job
 	n := 0
 	for n < nTraces {
@@ -230,7 +265,9 @@ func randomJobs(id string, nTraces int, perChunk int, stepsScale float64) []Job 
 		jobs = append(jobs, Job{Name: fmt.Sprintf("random[%d..%d)", start, start+k), Make: func(goit string, c *Chunk, rng *rand.Rand) {
 			for i := 0; i < k; i++ {
 				p := *profs[(start+i)%len(profs)]
-				p.Steps = int(float64(p.Steps) * stepsScale)
+				if p.Name != "bigstore" && p.Name != "longhistory" {
+					p.Steps = int(float64(p.Steps) * stepsScale)
+				}
 				base, err := os.MkdirTemp(scratchBase(), "vrun")
 				if err != nil {
 					panic(err)
@@ -459,4 +496,181 @@ func treeSubsetJobs(id string, maxSize int, obs ObsSpec) []Job {
 		}})
 	}
 	return jobs
+}
+
+func fsPlan(id string) func(cx *CheckCtx) int {
+	return func(cx *CheckCtx) int {
+		mode := FSMode{Crash: id == "C15", Fault: id == "C16", Errnos: defaultErrnos, MaxPerCmd: 0}
+		nRandom := 3
+		if cx.Tier == "thorough" {
+			mode.Errnos = thoroughErrnos
+			mode.KillSample = 10
+			nRandom = 40
+		}
+		stats := &fsStats{ByCmd: map[string]int{}}
+		var smu sync.Mutex
+		var jobs []Job
+		for _, s := range loadScenarios(id) {
+			s := s
+			jobs = append(jobs, Job{Name: "fs-scenario " + s.Name, Make: func(goit string, c *Chunk, rng *rand.Rand) {
+				st := &fsStats{ByCmd: map[string]int{}}
+				var infra []string
+				fsEnumerate(goit, c, s.Steps, nil, s.TZ, mode, rng, s.Name, st, &infra)
+				smu.Lock()
+				mergeStats(stats, st)
+				cx.InfraErr = append(cx.InfraErr, infra...)
+				smu.Unlock()
+			}})
+		}
+		prof := baseProfile("fsrandom")
+		prof.Steps = 25
+		prof.Hostile = 3
+		for i := 0; i < nRandom; i++ {
+			i := i
+			jobs = append(jobs, Job{Name: fmt.Sprintf("fs-random %d", i), Make: func(goit string, c *Chunk, rng *rand.Rand) {
+				// first draw a history with the ordinary random driver, then re-execute it with enumeration
+				base, _ := os.MkdirTemp(scratchBase(), "vfsr")
+				T0 := NewTables()
+				p := *prof
+				tr := runRandom(goit, base, T0, &p, rng, fmt.Sprintf("fsr#%d", i))
+				os.RemoveAll(base)
+				st := &fsStats{ByCmd: map[string]int{}}
+				var infra []string
+				m := mode
+				m.MaxPerCmd = 12
+				fsEnumerate(goit, c, tr.Events, tr.Contents, tr.R.TZ, m, rng, tr.Label, st, &infra)
+				smu.Lock()
+				mergeStats(stats, st)
+				cx.InfraErr = append(cx.InfraErr, infra...)
+				smu.Unlock()
+			}})
+		}
+		cx.runJobs(jobs, "GoitTrace")
+		cx.Extra["fs_cases"] = stats.CrashPoints + stats.FaultPoints
+		cx.Extra["crash_points"] = stats.CrashPoints
+		cx.Extra["fault_points"] = stats.FaultPoints
+		cx.Extra["fault_positions_unreached"] = stats.Unreached
+		cx.Extra["commands_recorded"] = stats.Commands
+		cx.Extra["positions_by_command"] = stats.ByCmd
+		cx.Extra["real_kill_crosschecked"] = stats.KillChecked
+		cx.Extra["real_kill_mismatch"] = stats.KillMismatch
+		cx.Extra["recording_selfcheck_failures"] = stats.Drift
+		if len(stats.Samples) > 0 {
+			cx.Samples = stats.Samples
+		}
+		if stats.KillMismatch > 0 {
+			cx.InfraErr = append(cx.InfraErr, fmt.Sprintf("%d materialised crash states differ from really killed runs", stats.KillMismatch))
+		}
+		what := "crash point = a prefix of the recorded file-system modifications of one command applied to a copy of the pre-state"
+		if id == "C16" {
+			what = "fault position = one recorded file-system call (open/create/read/readdir/write/mkdir/rename/remove) of one command made to fail by strace error injection"
+		}
+		return cx.finish("fault_enumeration",
+			what+"; every position of every modifying command of the corpus (scenarios + seeded random histories) is enumerated; evaluations = positions judged by TLC against the GoitFSProps clauses; distinct = distinct (command line, pre-state digest, position) triples",
+			[]string{"strace -f -y -xx reports the file-system calls faithfully; recording is self-checked (replaying all recorded modifications must reproduce the real post-state)", "kill between two modifications, not power loss: no reordering, no torn writes", "projector is trusted"})
+	}
+}
+
+func mergeStats(a, b *fsStats) {
+	a.CrashPoints += b.CrashPoints
+	a.FaultPoints += b.FaultPoints
+	a.Unreached += b.Unreached
+	a.KillChecked += b.KillChecked
+	a.KillMismatch += b.KillMismatch
+	a.Commands += b.Commands
+	a.Drift += b.Drift
+	for k, v := range b.ByCmd {
+		a.ByCmd[k] += v
+	}
+	for _, s := range b.Samples {
+		if len(a.Samples) < 6 {
+			a.Samples = append(a.Samples, s)
+		}
+	}
+}
+
+func init() {
+	plans["C15"] = fsPlan("C15")
+	plans["C16"] = fsPlan("C16")
+}
+
+func damagePlan(cx *CheckCtx) int {
+	thorough := cx.Tier == "thorough"
+	stats := &dmgStats{ByClass: map[string]int{}, ByKind: map[string]int{}}
+	var smu sync.Mutex
+	var jobs []Job
+	scs := loadScenarios("C19")
+	nRandom := 2
+	if thorough {
+		nRandom = 12
+	}
+	const parts = 5 // the mutations of one repository are spread over this many jobs
+	addPart := func(name string, evs func(goit string, rng *rand.Rand) ([]M, map[string][]byte, int), part int, seed int64) {
+		jobs = append(jobs, Job{Name: fmt.Sprintf("%s part %d", name, part), Make: func(goit string, c *Chunk, _ *rand.Rand) {
+			rng := rand.New(rand.NewSource(seed)) // the same seed in every part: the same history and the same mutation list
+			e, cont, tz := evs(goit, rng)
+			st := &dmgStats{ByClass: map[string]int{}, ByKind: map[string]int{}}
+			var infra []string
+			damageEnumerate(goit, c, e, cont, tz, rng, name, thorough, st, &infra, part, parts)
+			smu.Lock()
+			stats.Cases += st.Cases
+			for k, v := range st.ByClass {
+				stats.ByClass[k] += v
+			}
+			for k, v := range st.ByKind {
+				stats.ByKind[k] += v
+			}
+			if st.MaxRSSKB > stats.MaxRSSKB {
+				stats.MaxRSSKB = st.MaxRSSKB
+			}
+			for _, s := range st.Samples {
+				if len(stats.Samples) < 6 {
+					stats.Samples = append(stats.Samples, s)
+				}
+			}
+			cx.InfraErr = append(cx.InfraErr, infra...)
+			smu.Unlock()
+		}})
+	}
+	nth := int64(0)
+	add := func(name string, evs func(goit string, rng *rand.Rand) ([]M, map[string][]byte, int)) {
+		nth++
+		for part := 0; part < parts; part++ {
+			addPart(name, evs, part, cx.Seed*7919+nth)
+		}
+	}
+	for _, s := range scs {
+		s := s
+		add("damage-scenario "+s.Name, func(goit string, rng *rand.Rand) ([]M, map[string][]byte, int) { return s.Steps, nil, s.TZ })
+	}
+	prof := baseProfile("dmgrandom")
+	prof.Steps = 18
+	prof.Hostile = 0
+	withW(prof, "remove", 1, "rmdir", 0, "reset", 2, "rm", 1)
+	for i := 0; i < nRandom; i++ {
+		i := i
+		add(fmt.Sprintf("damage-random %d", i), func(goit string, rng *rand.Rand) ([]M, map[string][]byte, int) {
+			base, _ := os.MkdirTemp(scratchBase(), "vdr")
+			defer os.RemoveAll(base)
+			p := *prof
+			tr := runRandom(goit, base, NewTables(), &p, rng, fmt.Sprintf("dmg#%d", i))
+			return tr.Events, tr.Contents, tr.R.TZ
+		})
+	}
+	cx.runJobs(jobs, "GoitTrace")
+	cx.Extra["fs_cases"] = stats.Cases
+	cx.Extra["damage_cases"] = stats.Cases
+	cx.Extra["by_file_class"] = stats.ByClass
+	cx.Extra["by_mutation"] = stats.ByKind
+	cx.Extra["max_rss_kb"] = stats.MaxRSSKB
+	if len(stats.Samples) > 0 {
+		cx.Samples = stats.Samples
+	}
+	return cx.finish("fault_enumeration",
+		"damage case = one file of a repository Goit produced (object, index, HEAD, branch, config, reflog) with one mutation: every truncation, every single-byte deletion, single-byte substitutions, swap of two object files, generator-made arbitrary bytes (exhaustive over offsets for files up to the tier's budget, seeded sample beyond); on every damaged repository all read-only commands, cat-file, restore and reset --hard are run; evaluations = damage cases judged by TLC against C19_Total / C19_NoWrongData",
+		[]string{"arbitrary bytes come from grammar-aware and random generators, not from coverage-guided fuzzing (outside this technique family)", "allocation guard = max RSS of the process under 1 GiB, hang guard = 5 s timeout", "projector is trusted"})
+}
+
+func init() {
+	plans["C19"] = damagePlan
 }
